@@ -4565,6 +4565,36 @@ where
         self.as_triangulation().vertex_coords(v)
     }
 
+    /// Wraps a caller-supplied vertex into the fundamental domain of this triangulation's global
+    /// topology, keeping its UUID and data. A no-op for Euclidean triangulations; for a toroidal
+    /// triangulation later insertions are wrapped exactly like the vertices it was built from.
+    fn canonicalize_vertex_for_insertion(
+        &self,
+        vertex: Vertex<K::Scalar, U, D>,
+    ) -> Result<Vertex<K::Scalar, U, D>, InsertionError> {
+        use crate::geometry::traits::coordinate::Coordinate;
+        use crate::topology::traits::global_topology_model::GlobalTopologyModel;
+
+        let mut coords = *vertex.point().coords();
+        self.tri
+            .global_topology
+            .model()
+            .canonicalize_point_in_place(&mut coords)
+            .map_err(|error| {
+                InsertionError::Construction(TriangulationConstructionError::GeometricDegeneracy {
+                    message: format!(
+                        "Failed to canonicalize vertex coordinates {:?}: {error}",
+                        vertex.point().coords(),
+                    ),
+                })
+            })?;
+        Ok(Vertex::new_with_uuid(
+            crate::geometry::point::Point::new(coords),
+            vertex.uuid(),
+            vertex.data,
+        ))
+    }
+
     fn ensure_spatial_index_seeded(&mut self) {
         if self.spatial_index.is_some() {
             return;
@@ -4670,6 +4700,7 @@ where
     where
         K::Scalar: ScalarSummable,
     {
+        let vertex = self.canonicalize_vertex_for_insertion(vertex)?;
         self.ensure_spatial_index_seeded();
 
         // Fully delegate to Triangulation layer
@@ -4784,6 +4815,7 @@ where
     where
         K::Scalar: ScalarSummable,
     {
+        let vertex = self.canonicalize_vertex_for_insertion(vertex)?;
         self.ensure_spatial_index_seeded();
 
         // Transactional guard: post-steps (flip repair and/or global Delaunay checks) can fail.
